@@ -12,7 +12,7 @@ import (
 
 func init() {
 	register(&core.Rule{ID: "L3", Min: 8,
-		Doc: "Per-node lock of ast.Node: (a) every read of the raw text (toString(), or p/l directly) on a raw branch (dominated by isRaw() being true) lies inside an rlock()/lock() region of the same node (lockset over go/cfg; `if lock { runlock() }` understood); (b) in parseRaw a whole-node store `*self = ...` (which also replaces the mutex) happens only in the exclusive arms (`full`, or lock == false); on the locked arm the representation switch goes through assign; (c) assign writes l and p first and publishes t last with atomic.StoreInt64; (d) load-once children are individually lockable: every newRawNode call on a parser.loadOnce arm passes lock=true; Load installs m when absent; newRawNode allocates m whenever lock is set, for every value kind.",
+		Doc: "Per-node lock of ast.Node: (a) every read of the raw text (toString(), or p/l directly) on a raw branch (dominated by isRaw() being true) lies inside an rlock()/lock() region of the same node, and the isRaw() test that selects the branch is itself evaluated inside that region (test repeated under the lock) (lockset over go/cfg; `if lock { runlock() }` understood); (b) in parseRaw a whole-node store `*self = ...` (which also replaces the mutex) happens only in the exclusive arms (`full`, or lock == false); on the locked arm the representation switch goes through assign; (c) assign writes l and p first and publishes t last with atomic.StoreInt64; (d) load-once children are individually lockable: every newRawNode call on a parser.loadOnce arm passes lock=true; Load installs m when absent; newRawNode allocates m whenever lock is set, for every value kind.",
 		Run: runL3})
 }
 
@@ -84,8 +84,12 @@ func runL3(c *core.Ctx) {
 				return true
 			}
 			c.Analysed(fn)
-			if st[recvText] >= 1 {
-				c.OK(cn, call.Pos(), "raw text read while %s's lock is held", recvText)
+			gpos := rawGuardPos(p, fd, call.Pos(), recvText)
+			gst, gok := heldAt(p, g, in, gpos, classify)
+			if st[recvText] >= 1 && gok && gst[recvText] < 1 {
+				c.Bad(cn, call.Pos(), "%s reads the raw text under %s's lock, but the isRaw() test that selects this branch (%s) was made before the lock was taken and is not repeated under it: another goroutine may have converted the node while this one waited for the lock, and p/l are then read as a string although they describe the parsed children", fn, recvText, p.Pos(gpos))
+			} else if st[recvText] >= 1 {
+				c.OK(cn, call.Pos(), "raw text read while %s's lock is held; isRaw() tested under the lock", recvText)
 			} else {
 				c.Bad(cn, call.Pos(), "%s reads the raw text (%s.toString()) on the isRaw() branch without holding the node's read lock: a concurrent parseRaw may be replacing p/l (data race on a node declared concurrently readable)", fn, recvText)
 			}
@@ -291,6 +295,13 @@ func runL3(c *core.Ctx) {
 // onRawBranch: pos is in the then-branch of `if X.isRaw()` or is preceded, in an
 // enclosing statement list, by `if !X.isRaw() { ... return }`.
 func onRawBranch(p *core.Program, fd *ast.FuncDecl, pos token.Pos, recvText string) bool {
+	return rawGuardPos(p, fd, pos, recvText).IsValid()
+}
+
+// rawGuardPos returns the position of the isRaw() test that decides the raw branch `pos` lies
+// on: the innermost enclosing `if X.isRaw()` (then-branch), else the latest preceding
+// `if !X.isRaw() { ...; return }` in an enclosing block.
+func rawGuardPos(p *core.Program, fd *ast.FuncDecl, pos token.Pos, recvText string) token.Pos {
 	isRawCall := func(e ast.Expr) bool {
 		call, ok := ast.Unparen(e).(*ast.CallExpr)
 		if !ok {
@@ -299,12 +310,13 @@ func onRawBranch(p *core.Program, fd *ast.FuncDecl, pos token.Pos, recvText stri
 		se, ok := call.Fun.(*ast.SelectorExpr)
 		return ok && se.Sel.Name == "isRaw" && exprStr(se.X) == recvText
 	}
+	best := token.NoPos
 	for _, ic := range enclosingIfs(fd, pos) {
-		if ic.inThen && isRawCall(ic.stmt.Cond) {
-			return true
+		if ic.inThen && isRawCall(ic.stmt.Cond) && ic.stmt.Cond.Pos() > best {
+			best = ic.stmt.Cond.Pos()
 		}
 	}
-	found := false
+	found := token.NoPos
 	ast.Inspect(fd.Body, func(n ast.Node) bool {
 		blk, ok := n.(*ast.BlockStmt)
 		if !ok || pos < blk.Pos() || pos >= blk.End() {
@@ -323,12 +335,15 @@ func onRawBranch(p *core.Program, fd *ast.FuncDecl, pos token.Pos, recvText stri
 				continue
 			}
 			if len(ifs.Body.List) > 0 {
-				if _, isRet := ifs.Body.List[len(ifs.Body.List)-1].(*ast.ReturnStmt); isRet {
-					found = true
+				if _, isRet := ifs.Body.List[len(ifs.Body.List)-1].(*ast.ReturnStmt); isRet && ifs.Cond.Pos() > found {
+					found = ifs.Cond.Pos()
 				}
 			}
 		}
 		return true
 	})
-	return found
+	if found > best {
+		best = found
+	}
+	return best
 }
